@@ -13990,3 +13990,126 @@ func ruleValidatorsSorted(c *Ctx) {
 	}
 	c.Floor("validators-sorted.stores", n, 4)
 }
+
+// ---------------------------------------------------------------------------
+// round 10
+
+// txFeeFields: the fee fields of transaction.Transaction an expression mentions.
+func txFeeFields(info *types.Info, e ast.Node) map[string]bool {
+	out := map[string]bool{}
+	ast.Inspect(e, func(x ast.Node) bool {
+		if se, ok := x.(*ast.SelectorExpr); ok && (se.Sel.Name == "SystemFee" || se.Sel.Name == "NetworkFee") {
+			if v, ok := info.ObjectOf(se.Sel).(*types.Var); ok && v.IsField() && namedTypeIs(info.TypeOf(se.X), "pkg/core/transaction", "Transaction") {
+				out[se.Sel.Name] = true
+			}
+		}
+		return true
+	})
+	return out
+}
+
+// ruleDepositChargeMirrorsBurn (C05): a transaction the Notary contract pays for has the contract as its sender: GAS.OnPersist
+// burns the transaction's fees from the contract's own balance, and Notary.OnPersist takes the same amount off the
+// depositor's record. The two amounts are built from the same fee fields of the transaction, or the GAS the contract owns
+// and the sum of the deposits it has recorded drift apart with every sponsored transaction (and the last depositor
+// to withdraw finds the contract short).
+func ruleDepositChargeMirrorsBurn(c *Ctx) {
+	gp := c.P.Func("pkg/core/native", "GAS", "OnPersist")
+	np := c.P.Func("pkg/core/native", "Notary", "OnPersist")
+	if gp == nil || np == nil {
+		c.Lost("deposit-charge-mirrors-burn.anchor", "GAS.OnPersist / Notary.OnPersist not found")
+		return
+	}
+	info := gp.Pkg.TypesInfo
+	var burnt map[string]bool
+	ast.Inspect(gp.Decl.Body, func(x ast.Node) bool {
+		call, ok := x.(*ast.CallExpr)
+		if !ok || len(call.Args) < 3 {
+			return true
+		}
+		if se, ok := ast.Unparen(call.Fun).(*ast.SelectorExpr); ok && se.Sel.Name == "Burn" {
+			burnt = txFeeFields(info, resolveLocalOnce(info, gp.Decl.Body, call.Args[2]))
+		}
+		return true
+	})
+	if len(burnt) == 0 {
+		c.Lost("deposit-charge-mirrors-burn.burn", "GAS.OnPersist no longer burns an amount built from the transaction's fee fields")
+		return
+	}
+	n := 0
+	ast.Inspect(np.Decl.Body, func(x ast.Node) bool {
+		call, ok := x.(*ast.CallExpr)
+		if !ok || len(call.Args) != 2 {
+			return true
+		}
+		se, ok := ast.Unparen(call.Fun).(*ast.SelectorExpr)
+		if !ok || se.Sel.Name != "Sub" || !strings.HasSuffix(types.ExprString(se.X), ".Amount") {
+			return true
+		}
+		n++
+		charged := txFeeFields(info, resolveLocalOnce(info, np.Decl.Body, call.Args[1]))
+		same := len(charged) == len(burnt)
+		for k := range burnt {
+			if !charged[k] {
+				same = false
+			}
+		}
+		if same {
+			c.OK("deposit-charge-mirrors-burn", c.P.Pos(call.Pos()), "the depositor is charged what is burnt from the contract for the transaction")
+		} else {
+			c.Fail("deposit-charge-mirrors-burn", c.P.Pos(call.Pos()), fmt.Sprintf("Notary.OnPersist takes %v of a sponsored transaction off the depositor's record while GAS.OnPersist burns %v from the Notary contract, its sender: the GAS the contract owns and the sum of the recorded deposits drift apart with every sponsored transaction", sortedKeys(charged), sortedKeys(burnt)))
+		}
+		return true
+	})
+	c.Floor("deposit-charge-mirrors-burn.charges", n, 1)
+}
+
+// ruleSupplyFollowsBalance (C05): addTokens changes one account's balance and the total supply by the same amount. Every
+// exit of a token function that is reachable from its balance change (incBalance) passes the store of the total supply -
+// the branch that deletes an emptied balance record included.
+func ruleSupplyFollowsBalance(c *Ctx) {
+	n := 0
+	for _, fd := range c.P.AllFuncDecls() {
+		if pkgRel(fd.Pkg.Types) != "pkg/core/native" || fd.Decl.Body == nil {
+			continue
+		}
+		f := c.P.NewFuncCFG(fd)
+		saves := f.CallSites("pkg/core/native.(*nep17TokenNative).saveTotalSupply")
+		if len(saves) == 0 {
+			continue
+		}
+		var changes []site
+		for _, b := range f.G.Blocks {
+			if !b.Live {
+				continue
+			}
+			for i, nd := range b.Nodes {
+				inspectNoLit(nd, func(x ast.Node) bool {
+					if call, ok := x.(*ast.CallExpr); ok {
+						if se, ok := ast.Unparen(call.Fun).(*ast.SelectorExpr); ok && se.Sel.Name == "incBalance" {
+							changes = append(changes, site{b, i, nd, call})
+						}
+					}
+					return true
+				})
+			}
+		}
+		if len(changes) == 0 {
+			continue
+		}
+		n++
+		var from []*cfg.Block
+		for _, s := range changes {
+			from = append(from, s.blk)
+		}
+		key := "supply-follows-balance:" + shortSym(FuncKey(fd.Obj))
+		// exits after the change: returns that are not error exits
+		ok, path := f.mustBefore(from, f.OKReturns(), saves, nil)
+		if ok {
+			c.OK(key, c.P.Pos(changes[0].call.Pos()), "every exit after the balance change passes the store of the total supply")
+		} else {
+			c.Fail(key, c.P.Pos(changes[0].call.Pos()), shortSym(FuncKey(fd.Obj))+" can return after changing an account's balance without storing the total supply ("+strings.Join(path, " -> ")+"): burning (or spending as a fee) an account's whole balance deletes its record and leaves totalSupply where it was - the supply exceeds the sum of the balances by that amount for ever")
+		}
+	}
+	c.Floor("supply-follows-balance.functions", n, 1)
+}
